@@ -64,6 +64,12 @@ theorem bind_locked (st st' : State) (k : Key) (v : Val) (h : st.bind k v = .ok 
   repeat (first | (split at h) | cases h)
   rfl
 
+theorem bind_locked' (st st' : State) (k : Key) (v : Val) (loc : Option Loc)
+    (h : st.bind k v loc = .ok st') : st'.locked = st.locked := by
+  unfold State.bind at h
+  repeat (first | (split at h) | cases h)
+  rfl
+
 theorem call_locked (ev : Val → Val) (st : State) (sel : Sel) (σ : Scope) (args : List Val)
     (kwargs : AList String Val) : (st.call ev sel σ args kwargs).1.locked = st.locked := by
   unfold State.call
@@ -102,6 +108,19 @@ theorem lock_changes_only_by (st : State) (op : Op) :
     · cases h : st.bind k v with
       | error e => rfl
       | ok st' => exact bind_locked st st' k v h
+  | bindAt k v loc =>
+    simp only [step]
+    cases h : st.bind k v (some loc) with
+    | error e => rfl
+    | ok st' => exact bind_locked' st st' k v _ h
+  | bindBlockAt k v loc =>
+    simp only [step]
+    split
+    · rfl
+    · rfl
+    · cases h : st.bind k v (some loc) with
+      | error e => rfl
+      | ok st' => exact bind_locked' st st' k v _ h
   | query k => simp only [step]; split <;> rfl
   | call sel enter args kwargs =>
     simp only [step]
